@@ -51,6 +51,17 @@ def tokens(name, fn, a, b, rnd):
                 return True
             return math.isfinite(o) and math.isfinite(e) and abs(Fraction(o) - Fraction(e)) <= 2 * U * max(abs(Fraction(o)), abs(Fraction(e)))
         t["vec"] = 1 if all(same(float(o), float(e)) for o, e in zip(out, exp)) else 0
+        # ... and on arrays of other shapes: 2-D, a column against a row (numpy broadcasting: entry (i, j) is phi(col_i, row_j)),
+        # an array against a scalar, a non-contiguous view
+        col = np.array([[a], [-a], [b], [0.5 * a]])
+        row = np.array([[b, a, -b, 0.0, 2.0 * b]])
+        for (x, y) in ((col, row), (row, col), (col * np.ones((1, 5)), row * np.ones((4, 1))), (col, b), (a, row),
+                       (np.array([a, 7.0, b, 7.0, -a])[::2], np.array([b, 7.0, a, 7.0, b])[::2])):
+            o2 = np.asarray(fn(x, y), dtype=float)
+            xb, yb = np.broadcast_arrays(np.asarray(x, dtype=float), np.asarray(y, dtype=float))
+            if o2.shape != xb.shape or not all(same(float(o), float(fn(float(p_), float(q_))))
+                                               for o, p_, q_ in zip(o2.ravel(), xb.ravel(), yb.ravel())):
+                t["vec"] = 0
         # homogeneity / idempotence only where the property states them
         large = 1 if (abs(a) >= 1e-8 and abs(b) >= 1e-8 and abs(a) <= 1e150 and abs(b) <= 1e150) else 0
         t["large"] = large
@@ -87,6 +98,11 @@ def run(tier):
     core.tlc_must_pass(res, "MC_Limiters")
     rep.add_tlc("MC_Limiters", res)
     rep.exhaustive = True
+    # the same clauses for ALL arguments (symbolic, Apalache): Init => Inv with a, b, lam unconstrained integers
+    core.apalache_suite(rep, "Apa_Limiters", ["InvMinmod", "InvSuperbee", "InvVanAlbada", "InvVanLeer", "InvSweby", "InvSymOdd", "InvHomog"],
+                        "model level, beyond the grid: Apa_Limiters.tla proves the region, symmetry, oddness, phi(a,a)=a, Sweby and "
+                        "homogeneity clauses for ALL integer (hence, by homogeneity, all rational) arguments with Apalache/Z3; the "
+                        "binding to the code remains the judged float tokens below")
     rnd = random.Random(core.seed())
     recs = []
     lims = {n: getattr(fd.xnum, n) for n in fd.LIMITERS}
